@@ -3,6 +3,7 @@ package rules
 import (
 	"fmt"
 	"go/ast"
+	"go/constant"
 	"go/token"
 	"go/types"
 	"sort"
@@ -34,6 +35,7 @@ func propC10(c *Ctx) {
 	c.ruleNoSkipOnExists()
 	// what a PASTE brings exists only in the expanded list: every collector after the expansion must work on it
 	c.ruleExpandedTree()
+	c.ruleWalkEveryKind("C10-WALK-EVERY-KIND")
 }
 
 // ruleValueReceiverWrites: a method with a value receiver works on a copy of the struct, but the copy shares every map,
@@ -1242,4 +1244,114 @@ func fnObj(f *Fn) *types.Func {
 		return nil
 	}
 	return f.Obj
+}
+
+// ---------- the expansion walk treats every kind alike ----------
+
+// ruleWalkEveryKind: a macro call stands for its body written in place, whatever directives the body is made of. The
+// walk that copies the tree (the list walker and the per-directive step) is run abstractly once per directive kind,
+// with every Type() of a directive bound to that kind: which library functions are called on the explored paths and
+// how the function returns must be the same for all kinds but the one that the expansion replaces (PASTE).
+func (c *Ctx) ruleWalkEveryKind(rule string) {
+	r := c.R
+	r.Rule(rule, "the expansion walk (list walker and per-directive step of the paste pass) run abstractly once per directive kind with every Type() bound to the kind: the set of functions called and the returns are the same for every kind except PASTE - a kind that the walk skips or treats apart no longer moves the context cursor as it did when the document was scanned, so what follows a pasted body is placed differently from what follows the body written in place", 2)
+	pr := c.pasteRoles()
+	enumT := c.directiveEnumType()
+	if pr.walk == nil || pr.perDirective == nil || enumT == nil {
+		r.Undecided(rule, "anchor", "list walker / per-directive step of the paste pass not found", "")
+		return
+	}
+	consts := enumConstants(enumT)
+	if len(consts) < 20 {
+		r.Undecided(rule, "enumeration", fmt.Sprintf("%d constants of the directive enumeration found", len(consts)), "")
+		return
+	}
+	paste := c.enumConst("Paste")
+	fns := []*Fn{pr.walk}
+	if pr.perDirective != pr.walk {
+		fns = append(fns, pr.perDirective)
+	}
+	for _, h := range fns {
+		groups := map[string][]string{}
+		for _, k := range consts {
+			if paste != nil && k == paste {
+				continue
+			}
+			groups[c.kindSignature(h, enumT, k)] = append(groups[c.kindSignature(h, enumT, k)], k.Name())
+		}
+		if len(groups) == 1 {
+			for sig := range groups {
+				r.Ok(rule, h.Name(), fmt.Sprintf("the same for all %d kinds other than PASTE: %.200s", len(consts)-1, sig), c.pos(h.Decl.Pos()))
+			}
+			continue
+		}
+		norm := ""
+		for sig, ks := range groups {
+			if norm == "" || len(ks) > len(groups[norm]) || (len(ks) == len(groups[norm]) && sig < norm) {
+				norm = sig
+			}
+		}
+		var sigs []string
+		for sig := range groups {
+			if sig != norm {
+				sigs = append(sigs, sig)
+			}
+		}
+		sort.Strings(sigs)
+		for _, sig := range sigs {
+			ks := groups[sig]
+			sort.Strings(ks)
+			r.Bad(rule, h.Name()+" | kinds "+strings.Join(ks, ","), fmt.Sprintf("for these kinds the walk does {%.200s}, for the other %d kinds {%.200s}", sig, len(groups[norm]), norm), c.pos(h.Decl.Pos()))
+		}
+	}
+}
+
+// kindSignature: what the abstract run of h does when every Type() of a directive is the constant k.
+func (c *Ctx) kindSignature(h *Fn, enumT types.Type, k *types.Const) string {
+	env := &constEnv{c: c, vars: map[types.Object]constant.Value{}}
+	env.leaf = func(f *Fn, e ast.Expr) (constant.Value, bool) {
+		call, ok := e.(*ast.CallExpr)
+		if !ok || len(call.Args) != 0 {
+			return nil, false
+		}
+		if tv, has := f.Pkg.TypesInfo.Types[call]; has && tv.Type != nil && types.Identical(tv.Type, enumT) {
+			if cal := callee(f.Pkg, call); cal != nil && cal.Type().(*types.Signature).Recv() != nil {
+				return k.Val(), true
+			}
+		}
+		return nil, false
+	}
+	env.retLabel = func(f *Fn, e ast.Expr) string {
+		if isNil(f.Pkg, e) {
+			return "return nil"
+		}
+		return "return error"
+	}
+	called := map[string]bool{}
+	env.visit = func(f *Fn, n ast.Node) {
+		ast.Inspect(n, func(m ast.Node) bool {
+			if _, isLit := m.(*ast.FuncLit); isLit {
+				return false
+			}
+			if call, ok := m.(*ast.CallExpr); ok {
+				if cal := callee(f.Pkg, call); cal != nil && cal.Pkg() != nil && strings.HasPrefix(cal.Pkg().Path(), prog.ModulePath) {
+					if tv, has := f.Pkg.TypesInfo.Types[call]; !(has && tv.Type != nil && types.Identical(tv.Type, enumT)) {
+						called["calls "+prog.FuncName(cal)] = true
+					}
+				}
+			}
+			return true
+		})
+	}
+	outs := map[string]bool{}
+	env.evalBody(h, h.Decl.Body.List, outs, 0)
+	var ks []string
+	for o := range outs {
+		ks = append(ks, o)
+	}
+	for o := range called {
+		ks = append(ks, o)
+	}
+	sort.Strings(ks)
+	return strings.Join(ks, "; ")
 }
